@@ -11,6 +11,7 @@ from hypothesis import strategies as st
 from exo.core.LoopIR import LoopIR, T
 
 from ..common import Violation, Skip, run_cases, guarded, rejection_types
+from ..gen.templates import programs_or_templates
 from ..gen.programs import programs, build, render_program, CONFIG_PRELUDE
 from ..exoutil import exec_source
 from .. import sched
@@ -54,7 +55,7 @@ class Lockstep:
                 found = sc[ident]
                 break
         if found is None:
-            raise Violation({"kind": "use-of-unbound-identifier"}, f"printed text uses {ident!r} (for {sym!r}) in {ctx} but no visible declaration prints under that name")
+            raise Violation({"kind": "use-of-unbound-identifier", "ctx": "alloc" if re.match(r"^\w+: ", ctx) else "other"}, f"printed text uses {ident!r} (for {sym!r}) in {ctx} but no visible declaration prints under that name")
         if found is not sym:
             raise Violation(
                 {"kind": "identifier-denotes-other-sym"},
@@ -422,7 +423,7 @@ def case_strategy():
     step = st.tuples(st.sampled_from(NAME_OPS), st.integers(0, 40), st.integers(0, 23), st.integers(0, 47)).map(list)
     return st.fixed_dictionaries(
         {
-            "prog": programs(max_stmts=10),
+            "prog": programs_or_templates(15, max_stmts=10),
             "steps": st.lists(step, min_size=0, max_size=6),
             "val": st.fixed_dictionaries({"fill": st.integers(0, 5), "layout": st.integers(0, 5), "cfg": st.lists(st.integers(0, 20), min_size=5, max_size=5), "pick": st.integers(0, 50)}),
         }
@@ -432,4 +433,4 @@ def case_strategy():
 def run(ctx):
     global CTX
     CTX = ctx
-    run_cases(ctx, case_strategy(), guarded(ctx, check_case), ctx.budget(1600, 60000))
+    run_cases(ctx, case_strategy(), guarded(ctx, check_case), ctx.budget(1000, 60000))
